@@ -198,7 +198,9 @@ func (c *channel) Close(err error) {
 		// wait async send finished.
 		if nil != c.writeQueue {
 			var maxWaitNum int
-			for (c.untilWrite || maxWaitNum < 10) && atomic.LoadInt32(&c.running) != idle {
+			// the queue must be observed empty before the sender is observed idle: the sender
+			// releases ownership before it re-checks the queue and may re-acquire it.
+			for (c.untilWrite || maxWaitNum < 10) && (len(c.writeQueue) > 0 || atomic.LoadInt32(&c.running) != idle) {
 				maxWaitNum++
 				time.Sleep(time.Millisecond * 100)
 			}
